@@ -11,6 +11,7 @@ answered with `bad-op <why>` — never with a default.
 import DC.Model.Cache
 import DC.Model.Check
 import DC.Model.Memo
+import DC.Model.Layers
 
 open DC
 
@@ -407,7 +408,207 @@ def answerMc (st : Memo.Store Nat) (kv : KV) : Memo.Store Nat × String :=
 structure DState where
   cache : Cache := {}
   memo : Memo.Store Nat := []
+  fan : Fanout := { shards := [] }
+  dq : Deque := { cache := {} }
+  ix : Index := { cache := {} }
+  dj : Django := { fan := { shards := [] } }
   deriving Inhabited
+
+
+/-! ### layers protocol (FanoutCache, Deque, Index, DjangoCache) -/
+
+def parseTimeout (s : String) : Option Timeout :=
+  if s == "d" then some .dflt else if s == "n" then some .forever else s.toInt?.map .secs
+
+def strOfPy : PyVal → Option Str
+  | .str s => some s
+  | _ => none
+
+/-- common fields of an `lop` line -/
+structure LArgs where
+  m : String
+  now : Int
+  env : List Nat
+  k : PyVal
+  E : Externals
+  v : Option PyVal
+  ttl : Option Int
+  tag : SqlVal
+  read : Bool
+  et : Bool
+  tg : Bool
+  kv : KV
+
+def parseLArgs (kv : KV) : Except String LArgs := do
+  let now ← match (kv.getD "now" "0").toInt? with | some n => pure n | none => throw "now"
+  let env ← match parseEnv (kv.getD "env" "-") with | some e => pure e | none => throw "env"
+  let k ← match KV.get? kv "k" with
+    | none => pure PyVal.none
+    | some t => match parsePyVal t with | some k => pure k | none => throw "k"
+  let hexOpt (name : String) : Except String Bytes :=
+    match KV.get? kv name with
+    | none => pure []
+    | some "-" => pure []
+    | some h => match hexToBytes h with | some b => pure b | none => throw name
+  let kp ← hexOpt "kp"
+  let vp ← hexOpt "vp"
+  let v ← match KV.get? kv "v" with
+    | none => pure none
+    | some t => match parsePyVal t with | some v => pure (some v) | none => throw "v"
+  let ttl ← match parseOptInt (kv.getD "ttl" "n") with | some t => pure t | none => throw "ttl"
+  let tag ← match parseSqlVal (kv.getD "tag" "n") with | some t => pure t | none => throw "tag"
+  -- values that come back out of the cache carry their own serialized form
+  let E0 := obsE k kp vp
+  let E : Externals := { E0 with
+    dumpsV := fun x => match x with | .obj o => (if vp.isEmpty then o else vp) | _ => vp,
+    dumpsK := fun x => match x with | .obj o => (if kp.isEmpty then o else kp) | _ => kp }
+  pure { m := kv.getD "m" "", now := now, env := env, k := k, E := E, v := v, ttl := ttl, tag := tag,
+         read := parseBool (kv.getD "read" "0"), et := parseBool (kv.getD "et" "0"),
+         tg := parseBool (kv.getD "tg" "0"), kv := kv }
+
+def needV (a : LArgs) : Except String PyVal :=
+  match a.v with | some v => pure v | none => throw "v"
+
+def runFanOp (f : Fanout) (a : LArgs) : Except String (Fanout × Out) := do
+  let f := { f with env := a.env, envMiss := false }
+  let keyErr (r : Fanout × Out) : Fanout × Out :=
+    match r with | (x, .default) => (x, .exc "KeyError") | r => r
+  match a.m with
+  | "set" => do let v ← needV a; pure (f.keyed a.E a.k (fun s => s.set a.E a.now a.k v a.ttl a.read a.tag))
+  | "add" => do let v ← needV a; pure (f.keyed a.E a.k (fun s => s.add a.E a.now a.k v a.ttl a.read a.tag))
+  | "touch" => pure (f.keyed a.E a.k (fun s => s.touch a.E a.now a.k a.ttl))
+  | "incr" =>
+    let delta ← match (a.kv.getD "delta" "1").toInt? with | some d => pure d | none => throw "delta"
+    let dflt ← match parseOptInt (a.kv.getD "default" "0") with | some d => pure d | none => throw "default"
+    pure (f.keyed a.E a.k (fun s => s.incr a.E a.now a.k delta dflt))
+  | "get" => pure (f.keyed a.E a.k (fun s => s.get a.E a.now a.k a.read a.et a.tg))
+  | "getitem" => pure (keyErr (f.keyed a.E a.k (fun s => s.get a.E a.now a.k false false false)))
+  | "contains" => pure (f.keyed a.E a.k (fun s => s.contains a.E a.now a.k))
+  | "pop" => pure (f.keyed a.E a.k (fun s => s.pop a.E a.now a.k a.et a.tg))
+  | "delete" => pure (f.keyed a.E a.k (fun s => s.delete a.E a.now a.k))
+  | "delitem" => pure (f.keyed a.E a.k (fun s => s.delitem a.E a.now a.k))
+  | "len" => pure f.len
+  | "volume" => pure f.volume
+  | "clear" => pure f.clear
+  | "expire" => pure (f.expire a.now)
+  | "evict" => pure (f.evict a.tag)
+  | "cull" => pure (f.cull a.now)
+  | "iter" => pure (f.iter a.E true)
+  | "riter" => pure (f.iter a.E false)
+  | "stats" => pure (f.stats (parseBool (a.kv.getD "enable" "1")) (parseBool (a.kv.getD "reset" "0")))
+  | "route" => pure (f, .int (f.route a.E a.k))
+  | m => throw s!"fanout-method:{m}"
+
+def runDequeOp (d : Deque) (a : LArgs) : Except String (Deque × Out) := do
+  let d := { d with cache := { d.cache with env := a.env, envMiss := false, trace := [] } }
+  let idx ← match (a.kv.getD "i" "0").toInt? with | some i => pure i | none => throw "i"
+  match a.m with
+  | "append" => do let v ← needV a; pure (d.append a.E a.now v false)
+  | "appendleft" => do let v ← needV a; pure (d.append a.E a.now v true)
+  | "pop" => pure (d.pop a.E a.now false)
+  | "popleft" => pure (d.pop a.E a.now true)
+  | "peek" => pure (d.peek a.E a.now false)
+  | "peekleft" => pure (d.peek a.E a.now true)
+  | "len" => pure d.len
+  | "getitem" => pure (d.getitem a.E a.now idx)
+  | "setitem" => do let v ← needV a; pure (d.setitem a.E a.now idx v)
+  | "delitem" => pure (d.delitem a.E a.now idx)
+  | "iter" => pure (d.iterVals a.E a.now false)
+  | "riter" => pure (d.iterVals a.E a.now true)
+  | "clear" => pure d.clear
+  | "rotate" => pure (d.rotate a.E a.now idx)
+  | "reverse" => pure (d.reverse a.E a.now)
+  | "maxlen" => pure (d.setMaxlen a.E a.now idx.toNat)
+  | m => throw s!"deque-method:{m}"
+
+def runIndexOp (x : Index) (a : LArgs) : Except String (Index × Out) := do
+  let x : Index := { cache := { x.cache with env := a.env, envMiss := false, trace := [] } }
+  match a.m with
+  | "getitem" => pure (x.getitem a.E a.now a.k)
+  | "setitem" => do let v ← needV a; pure (x.setitem a.E a.now a.k v)
+  | "delitem" => pure (x.delitem a.E a.now a.k)
+  | "setdefault" => do let v ← needV a; pure (x.setdefault a.E a.now a.k v)
+  | "pop" => pure (x.pop a.E a.now a.k (parseBool (a.kv.getD "hasdefault" "0")))
+  | "popitem" => pure (x.popitem a.E a.now (parseBool (a.kv.getD "last" "1")))
+  | "peekitem" => pure (x.peekitem a.E a.now (parseBool (a.kv.getD "last" "1")))
+  | "len" => pure x.len
+  | "iter" => pure (x.iter a.E true)
+  | "riter" => pure (x.iter a.E false)
+  | "items" => pure (x.items a.E a.now)
+  | "clear" => pure x.clear
+  | m => throw s!"index-method:{m}"
+
+def runDjangoOp (d : Django) (a : LArgs) : Except String (Django × Out) := do
+  let d := { d with fan := { d.fan with env := a.env, envMiss := false } }
+  let key ← match KV.get? a.kv "key" with
+    | none => pure []
+    | some t => match (parsePyVal t).bind strOfPy with | some s => pure s | none => throw "key"
+  let version ← match parseOptInt (a.kv.getD "version" "n") with | some v => pure v | none => throw "version"
+  let t ← match parseTimeout (a.kv.getD "timeout" "d") with | some t => pure t | none => throw "timeout"
+  -- the observed serialisation belongs to the namespaced key
+  let mk := d.makeKey key version
+  let E : Externals := { a.E with jsonz := fun x => if x == mk then a.E.jsonz a.k else a.E.jsonz x }
+  match a.m with
+  | "set" => do let v ← needV a; pure (d.set E a.now key v t version)
+  | "add" => do let v ← needV a; pure (d.add E a.now key v t version)
+  | "get" => pure (d.get E a.now key version)
+  | "touch" => pure (d.touch E a.now key t version)
+  | "delete" => pure (d.delete E a.now key version)
+  | "pop" => pure (d.pop E a.now key version)
+  | "has_key" => pure (d.hasKey E a.now key version)
+  | "incr" =>
+    let delta ← match (a.kv.getD "delta" "1").toInt? with | some d => pure d | none => throw "delta"
+    pure (d.incr E a.now key delta version)
+  | "clear" => pure d.clear
+  | "make_key" => pure (d, .val (d.makeKey key version))
+  | m => throw s!"django-method:{m}"
+
+def renderFan (f : Fanout) : String := " || ".intercalate (f.shards.map renderState)
+
+def mkShards (n : Nat) (c : Cfg) (stats : Bool) : List Cache :=
+  List.replicate n { cfg := { c with limD := c.limD * n }, statistics := stats }
+
+def answerLayer (st : DState) (head : String) (kv : KV) : DState × String :=
+  let cls := kv.getD "cls" ""
+  match head with
+  | "lcfg" =>
+    match parseCfg kv with
+    | none => (st, "bad-op lcfg")
+    | some c =>
+      let stats := parseBool (kv.getD "stats" "0")
+      let n := (kv.getD "shards" "1").toNat?.getD 1
+      match cls with
+      | "fanout" => ({ st with fan := { shards := mkShards n c stats } }, "ok")
+      | "deque" => ({ st with dq := { cache := { cfg := c, statistics := stats },
+                                      maxlen := (kv.getD "maxlen" "n").toNat? } }, "ok")
+      | "index" => ({ st with ix := { cache := { cfg := c, statistics := stats } } }, "ok")
+      | "django" =>
+        let pfx := ((KV.get? kv "prefix").bind parsePyVal).bind strOfPy |>.getD []
+        let ver := (kv.getD "version" "1").toInt?.getD 1
+        let dt := match kv.getD "deftimeout" "300" with | "n" => none | t => t.toInt?
+        ({ st with dj := { fan := { shards := mkShards n c stats }, keyPrefix := pfx, version := ver, defaultTimeout := dt } }, "ok")
+      | _ => (st, "bad-op lcfg-cls")
+  | "lstate" =>
+    match cls with
+    | "fanout" => (st, "state " ++ renderFan st.fan)
+    | "deque" => (st, "state " ++ renderState st.dq.cache)
+    | "index" => (st, "state " ++ renderState st.ix.cache)
+    | "django" => (st, "state " ++ renderFan st.dj.fan)
+    | _ => (st, "bad-op lstate-cls")
+  | _ =>
+    match parseLArgs kv with
+    | .error e => (st, "bad-op " ++ e)
+    | .ok a =>
+      let fin {α} (r : Except String (α × Out)) (upd : α → DState) (miss : α → Bool) : DState × String :=
+        match r with
+        | .ok (x, out) => (upd x, "ret " ++ renderOut out ++ (if miss x then " | env-missing" else ""))
+        | .error e => (st, "bad-op " ++ e)
+      match cls with
+      | "fanout" => fin (runFanOp st.fan a) (fun x => { st with fan := x }) (·.envMiss)
+      | "deque" => fin (runDequeOp st.dq a) (fun x => { st with dq := x }) (·.cache.envMiss)
+      | "index" => fin (runIndexOp st.ix a) (fun x => { st with ix := x }) (·.cache.envMiss)
+      | "django" => fin (runDjangoOp st.dj a) (fun x => { st with dj := x }) (·.fan.envMiss)
+      | _ => (st, "bad-op lop-cls")
 
 def answer (st : DState) (line : String) : DState × String :=
   let kv := parseKV line
@@ -425,6 +626,9 @@ def answer (st : DState) (line : String) : DState × String :=
       ({ st with cache := c },
        "ret " ++ renderOut out ++ " | " ++ renderTrace c.trace ++ (if c.envMiss then " | env-missing" else ""))
     | .error e => (st, "bad-op " ++ e)
+  | ("lcfg", _) :: rest => answerLayer st "lcfg" rest
+  | ("lop", _) :: rest => answerLayer st "lop" rest
+  | ("lstate", _) :: rest => answerLayer st "lstate" rest
   | ("ck", _) :: rest => (st, answerCk rest)
   | ("mk", _) :: rest => (st, answerMk rest)
   | ("mc", _) :: rest => let (m, a) := answerMc st.memo rest; ({ st with memo := m }, a)
